@@ -45,11 +45,11 @@ func init() {
 
 // cliModel resolves the CLI's unexported names by role.
 type cliModel struct {
-	ccMap, sepMap, capMap, defaults string // global names
+	ccMap, sepMap, capMap, defaults string            // global names
 	flagOf                          map[string]string // global var -> "set/flagname"
-	charGen, wlGen, classFlags     *ssa.Function
-	sepFor, capFor                 *ssa.Function
-	builtinList, fileList, usage   *ssa.Function
+	charGen, wlGen, classFlags      *ssa.Function
+	sepFor, capFor                  *ssa.Function
+	builtinList, fileList, usage    *ssa.Function
 }
 
 func resolveCLI(p *core.Program, inits map[string]*core.InitVal) *cliModel {
